@@ -254,6 +254,29 @@ Definition res_eqb {A} (eqb : A -> A -> bool) (a b : res A) : bool :=
   | _, _ => false
   end.
 
+(* ---- the functions called through a schema ------------------------------------------------------ *)
+(* extensions/omniv21/transform/invokeCustomFunc.go: a custom_func whose function returns an
+   error yields nil when its declaration says ignore_error, otherwise the error - which fails
+   the record; an object member whose value is nil or "" is left out.  A member's outcome depends
+   on its own declaration and its own call only (whatever is cached, shared or copied). *)
+Definition member_outcome (ignore_error : bool) (r : res unit) : option bool :=
+  match r with
+  | RVal _ => Some true          (* present *)
+  | REmpty => Some false         (* left out *)
+  | RError => if ignore_error then Some false else None   (* None: the record fails *)
+  end.
+Fixpoint record_outcome (ms : list (bool * res unit)) : option (list bool) :=
+  match ms with
+  | [] => Some []
+  | (ig, r) :: rest =>
+      match member_outcome ig r, record_outcome rest with
+      | Some p, Some l => Some (p :: l)
+      | _, _ => None
+      end
+  end.
+Definition res_kind {A} (r : res A) : res unit :=
+  match r with RVal _ => RVal tt | REmpty => REmpty | RError => RError end.
+
 Inductive c19case :=
   (* DateTimeToRFC3339 *)
 | RfcCase (inst wall : ztable) (dt : option parse_result) (fromTZ toTZ : tzarg) (observed : res rfc_obs)
@@ -265,7 +288,10 @@ Inductive c19case :=
               (observed : res Z)
   (* EpochToDateTimeRFC3339 *)
 | FromEpochCase (inst : ztable) (epoch : option (option Z)) (u : option eunit) (tz : list (option zone))
-                (observed : res rfc_obs).
+                (observed : res rfc_obs)
+  (* per record: the members (ignore_error, kind of result of the function called on its own)
+     and what the Transform delivered: None = failed record, Some flags = member present? *)
+| SchemaCase (records : list (list (bool * res unit) * option (list bool))).
 
 Definition check_case (c : c19case) : bool :=
   match c with
@@ -277,4 +303,6 @@ Definition check_case (c : c19case) : bool :=
       res_eqb Z.eqb (date_time_to_epoch (zlookup zi) (zlookup zw) dt f u) obs
   | FromEpochCase zi e u tz obs =>
       res_eqb rfc_obs_eqb (epoch_to_date_time (zlookup zi) e u tz) obs
+  | SchemaCase recs =>
+      forallb (fun p => opt_eqb (list_eqb Bool.eqb) (record_outcome (fst p)) (snd p)) recs
   end.
